@@ -77,11 +77,39 @@ def run_group(cfg, troot, home, plan, log, inputs=None):
     o = {"hash_fn": "metro", "kind": cfg["kind"], "threads": cfg["threads"], "rf": cfg.get("rf"),
          "skip_content_hash": cfg.get("skip_content_hash"), "transform": cfg.get("transform"), "no_copy": cfg.get("no_copy")}
     env = gm.env_for(o, home, shimlog.shim_env(log, [troot], plan))
+    evf = log + ".events"
+    if os.path.exists(evf):
+        os.unlink(evf)
+    env["FCLONES_VERIF_EVENTS"] = evf  # hook H5: permits of the open-files semaphore at the start and at the end of grouping
     extra, stdin, roots = ([], None, ["r0"])
     if inputs:
         extra, stdin, roots = (["--stdin"], ("\n".join(inputs) + "\n").encode(), [])
     argv = [fse(common.fclones_bin())] + gm.group_argv(o, roots, "json", extra)
-    return run_watched(argv, env, troot, stdin), argv
+    res = run_watched(argv, env, troot, stdin)
+    res.permits = open_file_permits(evf)
+    return res, argv
+
+
+def open_file_permits(evf):
+    """(permits at the start of grouping, permits at its end) from the event log of hook H5, None where not logged."""
+    import json
+    start = end = None
+    try:
+        with open(evf, "rb") as f:
+            for line in f:
+                try:
+                    e = json.loads(line)
+                except ValueError:
+                    continue
+                if e.get("k") == "sem.open_files":
+                    w, _, n = e.get("d", "").partition(" ")
+                    if w == "start":
+                        start = int(n)
+                    elif w == "end":
+                        end = int(n)
+    except OSError:
+        pass
+    return (start, end)
 
 
 def run_watched(argv, env, cwd, stdin, timeout=40):
@@ -258,6 +286,14 @@ def _one(cfg, ci, si, troot, home, d, files, full, sp, inputs=None, mo=None):
     if res.rc != 0 or "panicked" in res.err_text():
         return violation("C15:%s:run-failed" % sigbase, "group exited %s: %s" % (res.rc, res.err_text()[-300:]), witness,
                          sig=(ci, sigbase))
+    # conservation: whatever failed, every permit of the open-files semaphore taken during grouping is back at its end
+    # (a permit lost on an error path shrinks the pool for the rest of the run: enough failing files and it hangs)
+    st_, en_ = getattr(res, "permits", (None, None))
+    if st_ is not None and en_ is not None and st_ != en_:
+        witness["open_file_permits"] = {"at_start": st_, "at_end": en_}
+        return violation("C15:%s:open-file-permit-not-returned" % sigbase,
+                         "after %s on %s (%s #%d) the open-files semaphore holds %d permits at the end of grouping, %d at its start"
+                         % (errno.errorcode[en], fsd(X), op, nth, en_, st_), witness, sig=(ci, sigbase, "permits"))
     try:
         rep = reports.parse_json(res.out)
     except Exception as e:
@@ -309,7 +345,8 @@ def _one(cfg, ci, si, troot, home, d, files, full, sp, inputs=None, mo=None):
     sig = (si, ci, fsd(X), op, nth, en, bool(second))
     return ok(sig, {"config": cfg, "fault": witness["fault"]} if nth == 1 and en == errno.EIO and op.startswith("open") else None,
               {"faults_fired": len(fired), "ops": [op], "configs": [ci], "pairs": 1 if second else 0,
-               "stat_faults_without_effect": 1 if unaffected else 0, "faults_on_stdin_input_paths": 1 if inputs and op == "stat" else 0})
+               "stat_faults_without_effect": 1 if unaffected else 0, "faults_on_stdin_input_paths": 1 if inputs and op == "stat" else 0,
+               "runs_with_open_file_permits_conserved": 1 if st_ is not None and st_ == en_ else 0})
 
 
 def main(tier, seed, cases=None):
